@@ -118,6 +118,10 @@ SWEEP_STMTS = [
     "with open(\"f\") as fh:\n    n = 1", "for v in items:\n    n = v", "for a, b in [(1, 2)]:\n    n = a", "while n:\n    n -= 1\nelse:\n    n = 0",
     "class K:\n    pass", "try:\n    n = 1\nfinally:\n    n = 2", "if n:\n    n = 1\n# c\nelse:\n    n = 2", "async def g():\n    pass",
     "match n:\n    case 1:\n        n = 2",
+    # compound statements with several clauses: every header and every clause body is accounted for
+    "try:\n    n = 1\nexcept ValueError:\n    n = 2\nexcept Exception as e:\n    n = 3", "try:\n    n = 1\nexcept ValueError:\n    n = 2\nexcept:\n    n = 3",
+    "try:\n    n = 1\nexcept ValueError as err:\n    n = 2\nexcept Exception:\n    n = 3\nexcept:\n    n = 4", "try:\n    n = 1\nexcept:\n    n = 2",
+    "if n:\n    n = 1\nelif n > 3:\n    pass\nelif n > 5:\n    n = 2\nelse:\n    n = 3", "if n:\n    pass\nelif n > 3:\n    print(\"host\")\nelse:\n    n = 3",
 ]
 
 SWEEP_PRELUDE = corpus.HDR + """led = Led(13)
